@@ -1,0 +1,8 @@
+//go:build verif
+
+package builtin
+
+import "github.com/paulsonkoly/calc/types/node"
+
+// VerifAll returns the syntax trees of the built-in function definitions.
+func VerifAll() []node.Assign { return all[:] }
